@@ -18,4 +18,8 @@ MCRefuseReg == @REFUSEREG@
 MCRefuseInst == @REFUSEINST@
 MCInvokers == @INVOKERS@
 MCCbOf == @CBOF@
+MCIdOf == @IDOF@
+MCKeyFields == @KEYFIELDS@
+MCSdkObs == @SDKOBS@
+MCPreMeter == @PREMETER@
 =============================================================================
